@@ -719,9 +719,9 @@ def mon_model(sc, r):
         reqs.append((t, ps[0], f"unit {start} {P} {K if K else '-'} {G} {sc.meta.get('leak', 200)} {','.join(ev)}"))
     if not reqs: return out
     try: answers = vlib.run_driver([q for (_, _, q) in reqs])
-    except RuntimeError as e: return [dict(mix.viol(sc, r, "machinery", f"model driver failed: {e}"), machinery=True)]
+    except RuntimeError as e: return [mix.viol(sc, r, "protocol", f"model driver failed: {e}")]
     for (t, p, q), ans in zip(reqs, answers):
-        if ans == "bad-op": out.append(dict(mix.viol(sc, r, "machinery", f"model driver rejected {q}"), machinery=True)); continue
+        if ans == "bad-op": out.append(mix.viol(sc, r, "protocol", f"model driver rejected {q}")); continue
         f = ans.split(" "); acts = [] if f[0] == "." else f[0].split(",")
         fin = finished(r, key_of(t["bin"], t["pkg"], t["name"]))
         if not fin: continue
@@ -764,7 +764,11 @@ def system_request(sc, r):
     if mm: mf = mm.group(1)
     elif re.search(r"fail-fast\s*=\s*false", cfgtxt) or "--no-fail-fast" in cfgtxt: mf = "a"
     acts, want = [], []
-    res_of = lambda st: st.split(":")[1]
+    def res_of(st):
+        # the event tap's result token in the driver's protocol: `FSUnixSignal(9)` / `FSlUnixSignal(9)` → `FS9`
+        tok = st.split(":")[1]
+        mm_ = re.match(r"^FSl?\w*\((\d+)\)$", tok)
+        return f"FS{mm_.group(1)}" if mm_ else tok
     slow_of = lambda st: "1" if st.split(":")[2] == "slow" else "0"
     nsig = 0
     for (ns, k, d) in r.events:
@@ -811,8 +815,8 @@ def mon_system(sc, r):
     req, want, idx = q
     if req.endswith(" ."): return out
     try: ans = vlib.run_driver([req])[0]
-    except RuntimeError as e: return [dict(mix.viol(sc, r, "machinery", f"model driver failed: {e}"), machinery=True)]
-    if ans == "bad-op": return [dict(mix.viol(sc, r, "machinery", f"model driver rejected {req[:300]}"), machinery=True)]
+    except RuntimeError as e: return [mix.viol(sc, r, "protocol", f"model driver failed: {e}")]
+    if ans == "bad-op": return [mix.viol(sc, r, "protocol", f"model driver rejected {req[:300]}")]
     got = ans.split(" ## ")[0]
     got = [] if got == "." else got.split(";")
     # a second shutdown signal that arrives with the run already at the signal level is announced only as RunBeginKill
@@ -837,15 +841,23 @@ def run_family(name, seed, tier, n_quick, n_thorough, jobs=5, kinds=None):
     violations = []; dist = {}; notes = []
     def evaluate(sc, r):
         out = []
-        for m in mons: out += [v for v in m(sc, r) if kinds is None or v["kind"] in kinds or v["kind"] == "machinery"]
-        return out
+        for m in mons: out += [v for v in m(sc, r) if kinds is None or v["kind"] in kinds or v["kind"] in ("machinery", "protocol")]
+        # a request the model driver cannot even parse is never the machine's doing and never the code's: the correspondence
+        # itself is broken (reported as such), and the scenario's other findings stand
+        for v in out:
+            if v["kind"] == "protocol" and v["what"] not in broken: broken.append(v["what"])
+        return [v for v in out if v["kind"] != "protocol"]
     for sc, r in res:
         if getattr(r, "error", None): broken.append(f"scenario {sc.name}: {r.error}"); continue
         vs, note = e2e.confirm(sc, r, evaluate, os.path.join(vlib.BUILD, "e2e-run", f"{name}-{seed}"))
         violations += vs
         if note: notes.append(note); dist[f"e2e:{name}:unconfirmed-or-unevaluable"] = dist.get(f"e2e:{name}:unconfirmed-or-unevaluable", 0) + 1
+        if note and "not evaluable" in note: dist[f"e2e:{name}:not-evaluable"] = dist.get(f"e2e:{name}:not-evaluable", 0) + 1
         for t in sc.meta["tests"]: dist[f"e2e:{name}:{t['kind']}"] = dist.get(f"e2e:{name}:{t['kind']}", 0) + 1
         for s in sc.signals: dist[f"e2e:{name}:signal:{s[3]}"] = dist.get(f"e2e:{name}:signal:{s[3]}", 0) + 1
+    # a family most of whose scenarios cannot be evaluated checks nothing: say so instead of passing quietly
+    if len(res) >= 4 and dist.get(f"e2e:{name}:not-evaluable", 0) * 2 > len(res):
+        broken.append(f"family {name}: {dist[f'e2e:{name}:not-evaluable']} of {len(res)} scenarios were not evaluable in 4 runs each: {notes[:2]}")
     samples = [{"scenario": sc.name, "tests": [(t["bin"], t["name"], t["kind"]) for t in sc.meta["tests"]], "signals": sc.signals, "exit": r.exit, "wall_ms": int(r.wall_ms)} for sc, r in res[:2]]
     return {"e2e_runs": len(res), "e2e_tests": sum(len(sc.meta["tests"]) for sc, _ in res), "e2e_processes": sum(len(r.procs) for _, r in res), "dist": dist,
             "violations": violations, "broken": broken, "samples": samples, "rule": RULES[name], "notes": notes}
